@@ -401,9 +401,15 @@ func runCheck(p *PropDef, tier string, seed int64) int {
 		}
 	}
 	solveRobust(real, opts)
+	// covers only have to NOT be unsat; a contradiction shows up in a fraction of a second, so a short timeout
+	// and more parallelism (each cover that is sat-or-unknown costs its full timeout)
 	copts := opts
-	copts.TimeoutS = 2
+	copts.TimeoutS = 1
+	if tier == "thorough" {
+		copts.TimeoutS = 4
+	}
 	copts.All = false
+	copts.Jobs = 10
 	solveAll(covers, copts)
 
 	// 3. classify
